@@ -1001,13 +1001,6 @@ package dig
 //@   loop range s.childScopes #1: invariant[C06:no-scope-created-so-far] forall x *Scope :: allocated(x) ==> existed(x)
 //@   site call (*dig.Scope).appendSubscopes #1: assert[C06:every-child-subtree-listed] $recv == s.childScopes[$i] && $arg0 == dest
 
-//@ func (s *Scope) findAndValidateResults(rl) (keys, err)
-//@   trusted
-//@   requires s != nil
-//@   allocates
-//@   ensures err == nil ==> keys != nil && fresh(keys)
-//@   ensures treeInv()
-
 //@ func (s *Scope) cycleDetectedError(cycle) (r)
 //@   trusted
 //@   requires s != nil
@@ -1019,7 +1012,7 @@ package dig
 //@   requires s0 != nil && ctor != nil && kind(typeOf(ctor)) == kFunc()
 //@   requires treeInv()
 //@   modifies map(Scope.providers), Scope.nodes, elems(*constructorNode), Scope.isVerifiedAcyclic, graphHolder.nodes, graphHolder.snap, elems(*graphNode), map(constructorNode.orders), elems(*Scope)
-//@   modifies ProvideInfo.ID, ProvideInfo.Inputs, ProvideInfo.Outputs
+//@   modifies ProvideInfo.ID, ProvideInfo.Inputs, ProvideInfo.Outputs, elems(string), elems(any)
 //@   allocates
 //@   let tgt = opts.Exported ? s0.anc[s0.nanc - 1] : s0
 //@   let all = ret(appendSubscopes_1, 0)
@@ -1238,7 +1231,7 @@ package dig
 //@   requires s != nil && treeInv()
 //@   requires forall i int :: 0 <= i && i < len(opts) ==> opts[i] != nil
 //@   modifies map(Scope.providers), Scope.nodes, elems(*constructorNode), Scope.isVerifiedAcyclic, graphHolder.nodes, graphHolder.snap, elems(*graphNode), map(constructorNode.orders), elems(*Scope)
-//@   modifies ProvideInfo.ID, ProvideInfo.Inputs, ProvideInfo.Outputs
+//@   modifies ProvideInfo.ID, ProvideInfo.Inputs, ProvideInfo.Outputs, elems(string), elems(any)
 //@   allocates
 //@   ensures[C03:providing-runs-nothing,C17:providing-runs-nothing] $nrun == old($nrun) && $ncb == old($ncb) && $ev == old($ev)
 //@   ensures[C14:bad-constructor-is-an-error] (constructor == nil || kind(typeOf(constructor)) != kFunc()) ==> err != nil && is(err, errInvalidInput) && unchangedAll()
@@ -1247,3 +1240,77 @@ package dig
 //@   ensures[C06:provide-verdict-is-provides-verdict] reached(provide_1) ==> (err == nil) == (ret(provide_1, 0) == nil)
 //@   loop range opts #1: invariant[C06:options-collected-without-touching-the-container] unchangedAll() && treeInv() && (cap(options.As) == 0 || fresh(options.As))
 //@   site call (*dig.Scope).provide #1: assert[C08:constructor-passed-on-unchanged,C09:constructor-passed-on-unchanged] $recv == s && $arg0 == constructor
+
+// ---------------------------------------------------------------------------
+// which keys a constructor is registered under (C09, C10)
+
+//@ func (cv connectionVisitor) checkKey(k, path) (err)
+//@   requires cv.s != nil && cv.keyPaths != nil
+//@   modifies map(connectionVisitor.keyPaths)
+//@   allocates plain
+//@   ensures[C09:checked-key-is-recorded] k in cv.keyPaths
+//@   ensures[C09:checking-records-only-that-key] forall k2 key :: k2 != k ==> (k2 in cv.keyPaths) == old(k2 in cv.keyPaths)
+//@   ensures[C09:a-key-provided-twice-is-rejected] (old(k in cv.keyPaths) || len(cv.s.providers[k]) > 0) == (err != nil)
+//@   ensures[C09:checking-touches-only-its-own-key-map] forall m map[key]string :: existed(m) && m != cv.keyPaths ==> mapeq(m)
+
+//@ func (cv connectionVisitor) Visit(res) (r)
+//@   requires cv.s != nil && cv.err != nil && cv.keyPaths != nil && res != nil
+//@   modifies map(connectionVisitor.keyPaths), cell(error)
+//@   allocates plain
+//@   let wasOK = old(deref(cv.err)) == nil
+//@   ensures[C09:single-result-is-registered-under-its-type-and-name] wasOK && is(res, resultSingle) && deref(cv.err) == nil ==> vkey(as(res, resultSingle).Type, as(res, resultSingle).Name) in cv.keyPaths
+//@        && (forall i int :: 0 <= i && i < len(as(res, resultSingle).As) ==> vkey(as(res, resultSingle).As[i], as(res, resultSingle).Name) in cv.keyPaths)
+//@   ensures[C09:single-result-registers-no-other-key] is(res, resultSingle) ==> (forall k key :: k in cv.keyPaths && !old(k in cv.keyPaths) ==>
+//@        k == vkey(as(res, resultSingle).Type, as(res, resultSingle).Name) || (exists i int :: 0 <= i && i < len(as(res, resultSingle).As) && k == vkey(as(res, resultSingle).As[i], as(res, resultSingle).Name)))
+//@   ensures[C09:a-single-result-provided-twice-is-rejected] wasOK && is(res, resultSingle) && (old(vkey(as(res, resultSingle).Type, as(res, resultSingle).Name) in cv.keyPaths)
+//@        || len(cv.s.providers[vkey(as(res, resultSingle).Type, as(res, resultSingle).Name)]) > 0) ==> deref(cv.err) != nil
+//@   ensures[C10:grouped-result-is-registered-under-its-group-keys,C09:grouped-result-is-registered-under-its-group-keys] wasOK && is(res, resultGrouped) ==> deref(cv.err) == nil
+//@        && gkey(as(res, resultGrouped).Type, as(res, resultGrouped).Group) in cv.keyPaths
+//@        && (forall i int :: 0 <= i && i < len(as(res, resultGrouped).As) ==> gkey(as(res, resultGrouped).As[i], as(res, resultGrouped).Group) in cv.keyPaths)
+//@   ensures[C10:grouped-result-registers-no-other-key,C09:grouped-result-registers-no-other-key] is(res, resultGrouped) ==> (forall k key :: k in cv.keyPaths && !old(k in cv.keyPaths) ==>
+//@        k == gkey(as(res, resultGrouped).Type, as(res, resultGrouped).Group) || (exists i int :: 0 <= i && i < len(as(res, resultGrouped).As) && k == gkey(as(res, resultGrouped).As[i], as(res, resultGrouped).Group)))
+//@   ensures[C09:a-failed-visit-registers-nothing-more] !wasOK ==> (forall k key :: (k in cv.keyPaths) == old(k in cv.keyPaths)) && deref(cv.err) == old(deref(cv.err))
+//@   ensures[C09:visiting-writes-only-its-own-error-cell] keptExcept(cv.err, cell(error))
+//@   ensures[C09:visiting-only-adds-keys] forall k key :: old(k in cv.keyPaths) ==> k in cv.keyPaths
+//@   ensures[C09:a-visit-never-clears-an-error] old(deref(cv.err)) != nil ==> deref(cv.err) != nil
+//@   ensures[C09:visit-returns-the-visitor-or-nothing] r == nil || (is(r, connectionVisitor) && as(r, connectionVisitor).s == cv.s && as(r, connectionVisitor).err == cv.err && as(r, connectionVisitor).keyPaths == cv.keyPaths)
+//@   ensures[C09:visiting-touches-only-its-own-key-map] forall m map[key]string :: existed(m) && m != cv.keyPaths ==> mapeq(m)
+//@   loop range r.As #1: invariant[C09:as-keys-checked-so-far] deref(cv.err) == nil && vkey(r.Type, r.Name) in cv.keyPaths && (forall i int :: 0 <= i && i < $i ==> vkey(r.As[i], r.Name) in cv.keyPaths)
+//@   loop range r.As #1: invariant[C09:only-declared-single-keys-so-far] forall k key :: k in cv.keyPaths && !old(k in cv.keyPaths) ==> k == vkey(r.Type, r.Name) || (exists i int :: 0 <= i && i < $i && k == vkey(r.As[i], r.Name))
+//@   loop range r.As #1: invariant keptExcept(cv.err, cell(error)) && (forall m map[key]string :: existed(m) && m != cv.keyPaths ==> mapeq(m)) && (forall k key :: old(k in cv.keyPaths) ==> k in cv.keyPaths)
+//@   loop range r.As #2: invariant[C10:as-group-keys-so-far] gkey(r.Type, r.Group) in cv.keyPaths && (forall i int :: 0 <= i && i < $i ==> gkey(r.As[i], r.Group) in cv.keyPaths)
+//@   loop range r.As #2: invariant[C10:only-declared-group-keys-so-far] forall k key :: k in cv.keyPaths && !old(k in cv.keyPaths) ==> k == gkey(r.Type, r.Group) || (exists i int :: 0 <= i && i < $i && k == gkey(r.As[i], r.Group))
+//@   loop range r.As #2: invariant (forall m map[key]string :: existed(m) && m != cv.keyPaths ==> mapeq(m)) && deref(cv.err) == old(deref(cv.err)) && (forall k key :: old(k in cv.keyPaths) ==> k in cv.keyPaths)
+
+//@ pure func visitorOK(cv connectionVisitor) Bool = cv.s != nil && cv.err != nil && cv.keyPaths != nil
+
+// The walk visits the result itself and then, with the visitor that Visit
+// returned, every field of a result object and every entry of a result list
+// (site assertions); that every leaf of the tree is visited follows by
+// induction over the tree, which is not sent to a solver.
+//@ func walkResult(r, v) ()
+//@   requires r != nil && v != nil && is(v, connectionVisitor) && visitorOK(as(v, connectionVisitor))
+//@   requires is(r, resultObject) ==> (forall j int :: 0 <= j && j < len(as(r, resultObject).Fields) ==> as(r, resultObject).Fields[j].Result != nil)
+//@   requires is(r, resultList) ==> (forall j int :: 0 <= j && j < len(as(r, resultList).Results) ==> as(r, resultList).Results[j] != nil)
+//@   modifies map(connectionVisitor.keyPaths), cell(error), elems(string), elems(any)
+//@   allocates plain
+//@   let kp = as(v, connectionVisitor).keyPaths
+//@   ensures[C09:walking-only-adds-keys] forall k key :: old(k in kp) ==> k in kp
+//@   ensures[C09:walking-touches-only-the-visitors-key-map] forall m map[key]string :: existed(m) && m != kp ==> mapeq(m)
+//@   ensures[C09:walking-writes-only-the-visitors-error-cell] keptExcept(as(v, connectionVisitor).err, cell(error))
+//@   ensures[C09:an-error-found-by-the-walk-stays] old(deref(as(v, connectionVisitor).err)) != nil ==> deref(as(v, connectionVisitor).err) != nil
+//@   site call (dig.resultVisitor).Visit #1: assert[C09:walk-visits-the-result-itself] $arg0 == r && $recv == v
+//@   loop range res.Fields #1: invariant[C09:walk-of-fields-only-adds-keys] keptExcept(as(v, connectionVisitor).err, cell(error)) && (forall k key :: old(k in kp) ==> k in kp) && (forall m map[key]string :: existed(m) && m != kp ==> mapeq(m))
+//@        && (old(deref(as(v, connectionVisitor).err)) != nil ==> deref(as(v, connectionVisitor).err) != nil)
+//@   loop range res.Results #1: invariant[C09:walk-of-entries-only-adds-keys] keptExcept(as(v, connectionVisitor).err, cell(error)) && (forall k key :: old(k in kp) ==> k in kp) && (forall m map[key]string :: existed(m) && m != kp ==> mapeq(m))
+//@        && (old(deref(as(v, connectionVisitor).err)) != nil ==> deref(as(v, connectionVisitor).err) != nil)
+//@   site call dig.walkResult #1: assert[C09:walk-descends-into-every-field,C15:walk-descends-into-every-field] $arg0 == res.Fields[$i].Result
+//@   site call dig.walkResult #2: assert[C09:walk-descends-into-every-entry,C15:walk-descends-into-every-entry] $arg0 == res.Results[$i]
+
+//@ func (s *Scope) findAndValidateResults(rl) (keys, err)
+//@   requires s != nil && (forall j int :: 0 <= j && j < len(rl.Results) ==> rl.Results[j] != nil)
+//@   modifies elems(string), elems(any)
+//@   allocates plain
+//@   ensures[C09:validated-keys-are-a-fresh-set] err == nil ==> keys != nil && fresh(keys)
+//@   ensures[C09:validation-reports-what-the-walk-found] (err != nil) == (deref(as(argOf(walkResult_1, 1), connectionVisitor).err) != nil)
+//@   site call dig.walkResult #1: assert[C09:whole-result-list-validated-against-this-scope,C08:whole-result-list-validated-against-this-scope] $arg0 == box(rl) && is($arg1, connectionVisitor) && as($arg1, connectionVisitor).s == s
